@@ -22,8 +22,9 @@ NOT proved of it: (1) git locations outside the restricted grammar; URLs read th
 the model's own computation on the concrete text (`UrlNF`, `UrlRead`, `VcsUrlOK`), not by a grammar;
 (2) constraints printed as a disjunction (they do not round-trip at all: `disjunction_not_reparsable`; outside the
 property's domain) — wildcard spellings `==X.*` / `!=X.*` are covered by `dep_roundtrip_registry_wildcard`; (3) dependencies that are
-members of SEVERAL extras or of one extra and carry a marker of their own (one extra, no own marker:
-`dep_roundtrip_registry_in_extra`); (4) markers outside C13's domain
+members of SEVERAL extras or of one extra and carry a marker of their own (`dep_roundtrip_in_extras_full_statement`;
+proved: one extra, no own marker, `dep_roundtrip_registry_in_extra`, and the setter half for any marker,
+`setMarker_records_membership`); (4) markers outside C13's domain
 (`in` / `not in`, `~=`, `platform_release`); (5) one side condition on the printed text kept as a hypothesis: no ` #` in it
 (`NoComment`; FALSE without it: the known finding `marker-literal-with-blank-hash-cut-as-comment`); that the marker
 text neither starts nor ends with a blank is derived from the printer (`markerEnds_domain`).
@@ -519,6 +520,42 @@ theorem dep_roundtrip_registry_in_extra (d : Dep) (x : String) (ts : List (List 
       · rw [b2, a3, hkind]; rfl
       · unfold sameSource; rw [b1]
         constructor <;> simp [Spec.isSameSourceAs, a4, hsrc, truthy]
+
+/-- **what the `marker` setter restores, for any marker**: the names of the `==` clauses on `extra` that
+`convert_markers` reports (`inExtrasOf`) are appended to `in_extras`, and — when there is at least one — the dependency
+becomes optional (poetry-core ad4e259).  This is the re-parse half for SEVERAL extras (`extra == "a" or extra == "b"`)
+and for one extra plus an own marker (`(marker) and (extra == "x")`): it reduces them to computing
+`convert_markers` of the marker `_compact_markers` builds from the printed clause. -/
+theorem setMarker_records_membership (d d' : Dep) (m : M) (groups : List (List (String × String)))
+    (h : d.setMarker m = .ok d') (hx : convertMarkersFor "extra" m = .ok (some groups))
+    (hne : (inExtrasOf groups).isEmpty = false) :
+    d'.inExtras = d.inExtras ++ inExtrasOf groups ∧ d'.optional = true ∧ d'.marker = m := by
+  unfold Dep.setMarker at h
+  simp only [bind, Except.bind, pure, Except.pure, hx, hne, Bool.false_eq_true, if_false] at h
+  cases h2 : convertMarkersFor "python_version" m with
+  | error e => simp [h2] at h
+  | ok py =>
+    simp only [h2] at h
+    cases py <;> simp only [] at h <;> (repeat' split at h) <;> first | (cases h; exact ⟨rfl, rfl, rfl⟩) | (cases h)
+
+example : inExtrasOf [[("==", "a")], [("==", "b")]] = ["a", "b"] ∧
+    inExtrasOf [[("==", "x"), ("!=", "y")]] = ["x"] := by decide
+
+/-- the round trip for a member of several extras, or of extras and with an own marker, at full strength: the
+membership list and the marker's truth survive.  PROVED of it: one extra without own marker
+(`dep_roundtrip_registry_in_extra`); the printing half with an own marker (C02 `toPep508_membership_not_by_text`); the
+setter half for any marker (`setMarker_records_membership`).  NOT proved: that `_compact_markers` ∘ `union` of the
+printed clause `extra == "a" or extra == "b"` (an `AtomicMarkerUnion` after merging) resp. of `(marker) and (extra ==
+"x")` reports exactly these `==` clauses to `convert_markers` (`dnf` of the simplified marker).  As written it is FALSE for an
+own marker that itself mentions `extra` (the membership clause is then not printed: C02
+`toPep508_no_second_extra_clause`, known class `optional-dependency-with-own-extra-clause-loses-membership`); the
+provable form restricts `d.marker` to markers without the variable `extra`. -/
+def dep_roundtrip_in_extras_full_statement : Prop :=
+  ∀ (d : Dep) (t : String), d.kind = .registry → d.inExtras ≠ [] → (∀ x ∈ d.inExtras, ExtraName x) →
+    d.toPep508 = .ok t → ∀ d', createFromPep508 t = .ok d' →
+      d'.inExtras = d.inExtras ∧ d'.optional = true ∧
+      ∀ E b, d.marker.validate E = .ok b →
+        d'.marker.validate E = .ok (b && d.inExtras.any (fun x => (E.extras.getD []).contains x))
 
 /-- non-vacuity: the extra `test-x` -/
 example : ExtraName "test-x" :=
